@@ -110,7 +110,7 @@ def run(ctx, coq_ok):
     # only selected rules report; rule alone == rule among all
     fixtures = sorted(glob.glob(os.environ.get("VERIF_REPO", "/repo") + "/test/fixtures/dialects/ansi/*.sql"))
     ctx.rng.shuffle(fixtures)
-    fx = fixtures[: (6 if ctx.tier == "quick" else 40)]
+    fx = fixtures[: (6 if ctx.tier == "quick" else 30)]
     sample_rules = ["LT01", "CP01", "AL01", "RF02", "ST06", "LT02", "AM04", "CV03", "LT09", "RF04"] if ctx.tier == "quick" else codes
     lnt_all = Linter(config=FluffConfig(overrides={"dialect": "ansi"}))
     for f in fx:
@@ -233,16 +233,16 @@ def independence_under_rule_options(ctx, reg):
     nscen = [0]
 
     def lint(configs, rules, sql, parsed=None):
-        """Linter.lint_string under `configs` (+ rule selection). In 5 scenarios out of 6 (thorough: 2 of 3) the runs of one scenario differ in rule
+        """Linter.lint_string under `configs` (+ rule selection). In 5 scenarios out of 6 the runs of one scenario differ in rule
         selection / rule options alone, which parsing cannot see, so they share one parse and go through the same three public steps
-        lint_string is made of (parse_string, get_rulepack, lint_parsed); every 6th scenario (thorough: every 3rd) calls lint_string throughout."""
+        lint_string is made of (parse_string, get_rulepack, lint_parsed); every 6th scenario calls lint_string throughout."""
         ov = {"rules": rules} if rules else {}
         cfg = FluffConfig(configs=copy.deepcopy(configs), overrides=ov)
         lnt = Linter(config=cfg)
         if rules is None:
             nscen[0] += 1
             parsed = None
-            if nscen[0] % (6 if quick else 3):
+            if nscen[0] % 6:
                 try:
                     parsed = lnt.parse_string(sql)
                 except (AttributeError, TypeError):
